@@ -50,6 +50,9 @@ func init() {
 	register(&core.Rule{ID: "I2", Min: 30,
 		Doc: "State stack balanced: on the control flow of the emitted IR template of every path (conditional/unconditional/table branch semantics from I0), save = +1, drop = -1, drop_2 = -2, callee fragments = 0; depth is consistent at joins, never negative, and zero at the fragment's exit and at every branch handed to the caller.",
 		Run: func(c *core.Ctx) { runIRT(c, "I2") }})
+	register(&core.Rule{ID: "G1", Min: 20,
+		Doc: "Separator grammar of the emitted decoder programs: on the control flow of every emitted template, from a `match_char ','` no path through non-consuming instructions (lspace, load, goto) reaches an instruction that accepts the closing bracket (check_char '}' / ']', check_empty) before a value or key has been consumed; otherwise `{\"a\":1,}` or `[1,]` is accepted.",
+		Run: func(c *core.Ctx) { runIRT(c, "G1") }})
 	register(&core.Rule{ID: "I3", Min: 8,
 		Doc: "Depth tag: every compile function that emits a save also emits tag(sp...) before it on the same path (the compile-time nesting bound that turns unbounded type nesting into an error).",
 		Run: func(c *core.Ctx) { runIRT(c, "I3") }})
@@ -230,8 +233,9 @@ type irInstr struct {
 	pinned   bool
 	handed   bool // label returned or passed to a helper
 	pos      token.Pos
-	single   bool // call to a single-instruction emitter (may be a branch the caller must pin)
-	needPin  bool // single emitter whose result says it emitted (bool cond true) or void
+	arg      string // character operand of chr emissions
+	single   bool   // call to a single-instruction emitter (may be a branch the caller must pin)
+	needPin  bool   // single emitter whose result says it emitted (bool cond true) or void
 }
 
 type labelVal struct {
@@ -550,6 +554,11 @@ func (s *irState) call(call *ast.CallExpr) {
 			if m == s.d.intName {
 				in.explicit = true
 			}
+			if len(call.Args) == 2 {
+				if v, ok := s.p.ConstInt(call.Args[1]); ok && v > 0 && v < 128 {
+					in.arg = string(rune(v))
+				}
+			}
 			idx := s.emit(in)
 			if m == s.d.intName && len(call.Args) == 2 {
 				if lv, ok := s.labelOf(call.Args[1]); ok && len(lv.idx) == 1 {
@@ -772,6 +781,42 @@ func (s *irState) finish(endPos token.Pos) {
 		}
 	}
 	s.balance(endPos)
+	s.grammar()
+}
+
+// grammar (G1): after a ',' separator the emitted decoder program must not accept the
+// closing bracket before a value has been consumed.
+func (s *irState) grammar() {
+	if s.d.name != "jitdec" {
+		return
+	}
+	for i, in := range s.instrs {
+		if in.op != "_OP_match_char" || in.arg != "," {
+			continue
+		}
+		seen := map[int]bool{}
+		work := []int{i + 1}
+		for len(work) > 0 {
+			j := work[len(work)-1]
+			work = work[:len(work)-1]
+			if j < 0 || j >= len(s.instrs) || seen[j] {
+				continue
+			}
+			seen[j] = true
+			x := s.instrs[j]
+			switch {
+			case x.op == "_OP_lspace" || x.op == "_OP_load":
+				work = append(work, j+1)
+			case x.op == "_OP_goto":
+				if x.target >= 0 {
+					work = append(work, x.target)
+				}
+			case (x.op == "_OP_check_char" && (x.arg == "}" || x.arg == "]")) || x.op == "_OP_check_empty" || x.op == "_OP_array_skip":
+				s.viol = append(s.viol, irViolation{"G1", "comma-then-close", in.pos,
+					"after matching ',' the emitted program reaches `" + strings.TrimPrefix(x.op, "_OP_") + " '" + x.arg + "'` (at " + s.p.Pos(x.pos) + ") before consuming a value: a trailing comma (`{\"a\":1,}` / `[1,]`) is accepted"})
+			}
+		}
+	}
 }
 
 // ordinal: index among instructions with the same op (stable naming).
@@ -1107,6 +1152,8 @@ func runIRT(c *core.Ctx, rule string) {
 					c.OK(fn+"/stack", info.fd.Pos(), "%d feasible paths: save/drop balanced on the emitted control flow", an.paths[name])
 				case "I3":
 					c.OK(fn+"/tag", info.fd.Pos(), "save preceded by tag on every path")
+				case "G1":
+					c.OK(fn+"/separators", info.fd.Pos(), "%d feasible paths: no ',' is followed by an accepted closer", an.paths[name])
 				}
 				continue
 			}
